@@ -317,10 +317,30 @@ def prove_over_stale(mod, tmp, files):
         leaked = [x for x in leaked if any(x.endswith("/" + f) for f in files)]
         if leaked:
             return "prove() left its output open: %r" % leaked
+    first = {}
     for f in files:
         data = open(os.path.join(run, f), "rb").read()
         if data == STALE:
             elsewhere = " (a file of that name appeared in the directory the backend was imported in)" if os.path.exists(os.path.join(tmp, f)) else ""
             return "%s was not written into the working directory of the prove() call%s" % (f, elsewhere)
+        first[f] = data
+    # the script is run again: the directory now holds the files of an earlier run of the SAME shape (same size, same header
+    # and counts) in which one coefficient / value byte differs; what prove() leaves behind must again be this trace's files
+    for f in files:
+        d = first[f]
+        if len(d) > 8:
+            k = len(d) - 1 - (len(d) // 3)
+            with open(os.path.join(run, f), "wb") as fh:
+                fh.write(d[:k] + bytes([d[k] ^ 1]) + d[k + 1:])
+    os.chdir(run)
+    try:
+        mod.prove()
+    finally:
+        os.chdir(old)
+    for f in files:
+        data = open(os.path.join(run, f), "rb").read()
+        if data != first[f]:
+            return ("%s: prove() run again over the files of an earlier run of the same shape (same length and header, one byte of "
+                    "content different) left %d bytes that are not the %d bytes written into an empty directory" % (f, len(data), len(first[f])))
         os.replace(os.path.join(run, f), os.path.join(tmp, f))
     return None
